@@ -38,13 +38,14 @@ TRUSTED = ["torch.save/torch.load (pickle) of whole nn.Module objects incl. thei
 ASSUMPTIONS = ["'continuing with the same calls': the call program is split at the checkpoint into (calls up to it, continuation); all arms execute exactly the same calls, the continuation of a split call carries no optimizer/scheduler arguments (those re-create the optimizers in the library)",
                "'saving it together with its data' = save_raw_data=True; the save_raw_data=False + from_file(dset=fresh dataset) route is exercised only for configurations without a dataset optimizer / dataset constraints (the dataset's optimizer is not in the file on that route)",
                "pinned stream: every arm sets p.rng = s (public setter) before the first continuation call; natural stream: nothing is set, the reloaded object's full-batch permutation differs (summation order only)",
-               "tolerances: relative to the largest magnitude of the uninterrupted observable; pinned 1e-6 (measured 0), natural 1e-5 (property text)",
+               "tolerances: relative to the largest magnitude of the uninterrupted observable; pinned 1e-6 (measured: exactly 0), natural 1e-5 (property text). In the natural stream the floating-point observables are judged only for well-conditioned cases: the uninterrupted run is repeated with two other full-batch orders and must move by <= 5e-7 (measured on 330 cases: reload deviation / batch-order deviation <= 3.5 wherever the latter exceeds 1e-7); otherwise (Adam-amplified rounding noise, large cyclic LRs) only iteration count, constraints and LR-history keys/lengths are judged there and the pinned stream judges the same case deterministically",
                "schedulers are given explicit parameters (gamma, total_iters, step sizes) so that a split call builds the same scheduler as the unsplit one would"]
 EXPLANATION = ("Theorems in Props/C05.lean are about Model/Checkpoint.lean (which imports the C01 serializer model); each run performs real "
                "reconstructions with every split point, compares uninterrupted/reloaded/cloned runs, and replays the recorded event trace on the model.")
 
 TOL_PINNED = 1e-6
-TOL_NATURAL = 2e-4
+TOL_NATURAL = 1e-5
+NATURAL_COND = 5e-7     # natural stream: float observables judged only if the batch order alone moves the uninterrupted run by less
 OBSERVABLES = ("num_iters", "iter_losses", "iter_lrs", "obj", "probe", "constraints")
 
 
@@ -248,13 +249,31 @@ def run_case(ctx, drv, cfg, split, pinned, scratch):
                       observed={k: _js(v) for k, v in dev.items() if v != 0.0}, required="unchanged")
 
     # --- predicate 2: resume equivalence
+    judged_float = True
+    if not pinned:
+        # conditioning of the case: what the batch order alone does to the *uninterrupted* run (two other orders).
+        # Where that already approaches the tolerance (Adam's normalisation amplifies rounding noise, large LRs,
+        # cyclic schedules) the floating-point observables of this stream are not judged — the pinned stream
+        # judges the same case deterministically.
+        floor = 0.0
+        for alt in (4242, 777):
+            Ualt = cp.run_calls(cp.build(cfg), pre)
+            cp.run_calls(Ualt, post, alt)
+            d = cp.compare(cp.observe(Ualt), obs_U)
+            floor = max(floor, d["iter_losses"], d["obj"], d["probe"], d["iter_lrs"])
+        ctx.stat_max("resume-natural:batch_order_noise_floor", floor if floor != float("inf") else 1.0)
+        judged_float = floor <= NATURAL_COND
+        ctx.dist[f"natural:float_observables_judged={judged_float}"] += 1
     for name, X in (("reload", R), ("clone", C)):
         o = cp.observe(X)
         dev = cp.compare(o, obs_U)
         for k in OBSERVABLES:
-            if dev[k] == dev[k] and dev[k] != float("inf"):
+            if dev[k] == dev[k] and dev[k] != float("inf") and judged_float:
                 ctx.stat_max(f"{stream}:{name}:{k}", dev[k])
-        bad = {k: _js(v) for k, v in dev.items() if not (v <= tol)}
+        if judged_float:
+            bad = {k: _js(v) for k, v in dev.items() if not (v <= tol)}
+        else:   # discrete part only: iteration count, constraints, LR-history keys and lengths
+            bad = {k: _js(v) for k, v in dev.items() if v == float("inf") or (k in ("num_iters", "constraints") and v != 0.0)}
         if bad:
             ctx.pred_fail(f"{name}-continue-differs{sfx}",
                           f"continuing after {name} differs from the uninterrupted run beyond {tol:g} (relative)", case,
@@ -408,6 +427,63 @@ def _stateless(cfg, key):
 
 
 # ---------------------------------------------------------------------------------------
+# direct histories for reconnect_optimizer_to_parameters (branches real CPU runs never reach)
+
+def reconnect_direct(ctx, drv, cp):
+    """On CPU `nn.Module.to` keeps the Parameter objects, so the runs above only ever exercise the
+    'same tensor' branch.  Here the real method is driven through the other branches on real models:
+    parameters replaced by new tensors (state must follow the position in the previous param group),
+    parameter list shrunk after the optimizer was built (entries beyond it are dropped / merged),
+    every subset of parameters carrying state.  Pure correspondence (stream trace-reconnect)."""
+    import torch
+    cfg = {"scan": [2, 3], "roi": [8, 8], "seed": 0, "rng_seed": 5, "num_probes": 1, "obj_type": "complex", "num_slices": 1,
+           "learn_tilt": True, "store": "zip", "raw": True, "calls": []}
+    names = {"probe": ["_probe_tilt", "_probe"], "dataset": ["_descan_shifts", "_scan_positions_px"]}
+    for which in ("probe", "dataset"):
+        for state_mask in range(4):
+            for fresh_mask in range(4):
+                for shrink in (False, True):
+                    p = cp.build(cfg)
+                    cp.run_calls(p, [{"n": 0, "opt": {which: {"type": "adam", "lr": 0.01}}, "reset": True}])
+                    m = cp.model_of(p, which)
+                    o = m.optimizer
+                    params = cp.opt_params(m)
+                    if len(params) != 2:
+                        raise HarnessError("reconnect_direct expects two optimizable parameters")
+                    for i in (1, 0):       # insertion order of the state dict: parameter 1 first
+                        if state_mask >> i & 1:
+                            o.state[params[i]] = {"step": torch.tensor(float(3 + i)), "exp_avg": torch.full_like(params[i], 0.5 + i)}
+                    for i in range(2):
+                        if fresh_mask >> i & 1:
+                            setattr(m, names[which][i], torch.nn.Parameter(params[i].detach().clone(), requires_grad=True))
+                    if shrink:
+                        if which == "probe":
+                            m.learn_probe_tilt = False
+                        else:
+                            m.learn_descan = False
+                    with cp.Trace() as tr:
+                        m.to("cpu")
+                    evs = [e for e in tr.events if e["ev"] == "reconnect"]
+                    if len(evs) != 1:
+                        raise HarnessError(f"expected one reconnect event, got {len(evs)}")
+                    e = evs[0]
+                    ans = drv.ask({"op": "reconnect", "cur": e["cur"], "old_params": e["old_params"], "state": e["before"]})
+                    if "err" in ans:
+                        raise HarnessError(f"driver: {ans}")
+                    ok = ans["ok"]
+                    ctx.count()
+                    ctx.dist["trace:reconnect-direct"] += 1
+                    ctx.dist[f"trace:reconnect-direct:identity_hyp={ok['identity']}"] += 1
+                    case = {"direct": {"model": which, "state_mask": state_mask, "fresh_mask": fresh_mask, "shrink": shrink}}
+                    ctx.mark(("reconnect-direct", which, state_mask, fresh_mask, shrink))
+                    impl = {"state": e["after"], "group": e.get("group_after")}
+                    model = {"state": ok["state"], "group": ok["params"]}
+                    if impl != model:
+                        ctx.disagree("trace-reconnect", dict(case, event={k: v for k, v in e.items() if k != "obj"}), model, impl,
+                                     "optimizer state after reconnect_optimizer_to_parameters (direct history) differs from Model.Checkpoint.reconnect")
+
+
+# ---------------------------------------------------------------------------------------
 
 FORCED = [
     {"opt": "adam", "sched": "none", "keys": ["object", "probe"], "shape": "single", "n": 3, "store": "zip", "obj_type": "complex"},
@@ -431,8 +507,8 @@ def run(ctx):
     tempfile.tempdir = scratch          # Ptychography.clone() stages its fallback file in tempfile.gettempdir()
     drv = None if os.environ.get("C05_NO_DRIVER") else Driver("C05")
     rng = ctx.rng.fork(5)
-    n_cfg = ctx.n(40, 170)
-    budget = 165.0 if not ctx.thorough() else 1150.0
+    n_cfg = ctx.n(40, 150)
+    budget = 165.0 if not ctx.thorough() else 1050.0
     if ctx.search_mode:
         budget *= 2
     t0 = time.time()
@@ -440,6 +516,9 @@ def run(ctx):
     if os.environ.get("C05_ONLY"):
         only = {int(x) for x in os.environ["C05_ONLY"].split(",")}
     try:
+        if drv is not None and only is None:
+            from . import c05_problem as cp0
+            reconnect_direct(ctx, drv, cp0)
         for i in range(n_cfg):
             force = FORCED[i] if i < len(FORCED) else None
             cfg = gen_cfg(rng.fork(100 + i), i, force)
@@ -466,7 +545,7 @@ def run(ctx):
             if time.time() - t0 > budget:
                 ctx.dist["stopped_on_time_budget_after_cfgs"] = i + 1
                 break
-        ctx.extra["tolerances"] = {"pinned": TOL_PINNED, "natural": TOL_NATURAL}
+        ctx.extra["tolerances"] = {"pinned": TOL_PINNED, "natural": TOL_NATURAL, "natural_conditioning_floor": NATURAL_COND}
     finally:
         tempfile.tempdir = old_tmp
         if drv is not None:
